@@ -602,3 +602,91 @@ Qed.
 Theorem memfile_cap_irrelevant : forall c1 c2 ops, in_extent ops = true ->
   snd (mrun true (minit c1) ops) = snd (mrun true (minit c2) ops).
 Proof. intros c1 c2 ops H. rewrite !memfile_eq_file by exact H. reflexivity. Qed.
+
+(* ---------- two handles on one memory.File blob ---------- *)
+Lemma pstep_size_mono p o : (zlen (f_data p) <= zlen (f_data (fst (pstep p o))))%Z.
+Proof.
+  destruct p as [d pos]. destruct o as [w|w wo|n|n ro|so sw|]; unfold pstep; cbn [f_data f_pos].
+  - cbn [fst f_data]. destruct w as [|x w']; [rewrite pwrite_nil; lia|].
+    unfold zlen. rewrite pwrite_length by discriminate. lia.
+  - destruct (wo <? 0)%Z; cbn [fst f_data]; [lia|].
+    destruct w as [|x w']; [rewrite pwrite_nil; lia|].
+    unfold zlen. rewrite pwrite_length by discriminate. lia.
+  - cbn [fst f_data]. lia.
+  - destruct (ro <? 0)%Z; cbn [fst f_data]; lia.
+  - destruct (seek_target (zlen d) pos so sw) as [t|]; [destruct (t <? 0)%Z|]; cbn [fst f_data]; lia.
+  - cbn [fst f_data]. lia.
+Qed.
+
+Definition Rm2 (m : mst2) (p : pst2) : Prop :=
+  rep (m2_buf m) (f2_data p) /\ m2_off0 m = f2_pos0 p /\ m2_off1 m = f2_pos1 p /\
+  (0 <= f2_pos0 p <= zlen (f2_data p))%Z /\ (0 <= f2_pos1 p <= zlen (f2_data p))%Z.
+
+Lemma Rm2_init c : Rm2 (minit2 c) pinit2.
+Proof. split; [apply rep_make|]. cbn. repeat split; lia. Qed.
+
+Lemma mstep2_sim m p ho : Rm2 m p -> op_in_extent2 p ho = true ->
+  Rm2 (fst (mstep2 true m ho)) (fst (pstep2 p ho)) /\ snd (mstep2 true m ho) = snd (pstep2 p ho).
+Proof.
+  intros [Hr [H0 [H1 [B0 B1]]]] Hext. destruct ho as [h o]. unfold op_in_extent2 in Hext. cbn [fst snd] in Hext.
+  destruct m as [buf o0 o1]. destruct p as [d p0 p1]. cbn [m2_buf m2_off0 m2_off1 f2_data f2_pos0 f2_pos1] in *.
+  subst o0 o1. unfold mstep2, pstep2. cbn [m2_buf m2_off0 m2_off1 f2_data f2_pos0 f2_pos1].
+  assert (HR : Rm (mkm buf (if h then p1 else p0)) (mkp d (if h then p1 else p0))).
+  { split; [exact Hr|]. split; [reflexivity|]. cbn [f_pos f_data]. destruct h; assumption. }
+  destruct (mstep_sim _ _ o HR Hext) as [[Hr' [Ho' Hb']] Hout].
+  pose proof (pstep_size_mono (mkp d (if h then p1 else p0)) o) as Hmono.
+  destruct (mstep true (mkm buf (if h then p1 else p0)) o) as [m' r].
+  destruct (pstep (mkp d (if h then p1 else p0)) o) as [p' q].
+  cbn [fst snd f_data] in *. split; [|exact Hout].
+  destruct h; cbn [fst m2_buf m2_off0 m2_off1 f2_data f2_pos0 f2_pos1];
+    (split; [exact Hr'|]); repeat split; cbn [f2_data f2_pos0 f2_pos1]; try assumption; try reflexivity; lia.
+Qed.
+
+Lemma mrun2_sim ops : forall m p, Rm2 m p -> in_extent2_from p ops = true ->
+  Rm2 (fst (mrun2 true m ops)) (fst (prun2 p ops)) /\ snd (mrun2 true m ops) = snd (prun2 p ops).
+Proof.
+  induction ops as [|o t IH]; intros m p HR Hext; cbn [mrun2 prun2].
+  - cbn [fst snd]. split; [exact HR|reflexivity].
+  - cbn [in_extent2_from] in Hext. apply andb_true_iff in Hext. destruct Hext as [He1 He2].
+    destruct (mstep2_sim m p o HR He1) as [HR1 Ho].
+    destruct (mstep2 true m o) as [m1 r1]. destruct (pstep2 p o) as [p1 q1]. cbn [fst snd] in *.
+    destruct (IH m1 p1 HR1 He2) as [HR2 Hos].
+    destruct (mrun2 true m1 t) as [m2 rs]. destruct (prun2 p1 t) as [p2 qs]. cbn [fst snd] in *.
+    split; [exact HR2|]. rewrite Ho, Hos. reflexivity.
+Qed.
+
+Theorem memfile_two_handles_eq_file : forall cap ops, in_extent2 ops = true ->
+  snd (mrun2 true (minit2 cap) ops) = snd (prun2 pinit2 ops).
+Proof. intros cap ops H. apply mrun2_sim; [apply Rm2_init|exact H]. Qed.
+
+Lemma prun2_firstn k : forall s ops, snd (prun2 s (firstn k ops)) = firstn k (snd (prun2 s ops)).
+Proof.
+  induction k as [|k IH]; intros s ops; [reflexivity|].
+  destruct ops as [|o t]; [reflexivity|].
+  cbn [firstn prun2]. destruct (pstep2 s o) as [s1 r]. specialize (IH s1 t).
+  destruct (prun2 s1 (firstn k t)) as [a1 l1]. destruct (prun2 s1 t) as [a2 l2].
+  cbn [snd firstn] in *. f_equal. exact IH.
+Qed.
+
+Lemma mrun2_firstn fx k : forall s ops, snd (mrun2 fx s (firstn k ops)) = firstn k (snd (mrun2 fx s ops)).
+Proof.
+  induction k as [|k IH]; intros s ops; [reflexivity|].
+  destruct ops as [|o t]; [reflexivity|].
+  cbn [firstn mrun2]. destruct (mstep2 fx s o) as [s1 r]. specialize (IH s1 t).
+  destruct (mrun2 fx s1 (firstn k t)) as [a1 l1]. destruct (mrun2 fx s1 t) as [a2 l2].
+  cbn [snd firstn] in *. f_equal. exact IH.
+Qed.
+
+Lemma scope2_in_extent : forall ops s, in_extent2_from s (firstn (scope2_from s ops) ops) = true.
+Proof.
+  induction ops as [|o t IH]; intros s; cbn [scope2_from]; [reflexivity|].
+  destruct (op_in_extent2 s o) eqn:E; [|reflexivity].
+  cbn [firstn in_extent2_from]. rewrite E. apply IH.
+Qed.
+
+Theorem check_sound_two_handles : forall cap ops,
+  C12_check2 ops (snd (mrun2 true (minit2 cap) ops)) (snd (prun2 pinit2 ops)) = true.
+Proof.
+  intros. unfold C12_check2. apply outs_eqb_eq. rewrite <- mrun2_firstn, <- prun2_firstn.
+  apply mrun2_sim; [apply Rm2_init|apply scope2_in_extent].
+Qed.
